@@ -189,7 +189,8 @@ fn eval_cells(ctx: &Ctx, case: &CellsCase) -> Verdict {
                     let p = (r % 16) + 1;
                     let a = ((h % 17) < p) as u8;
                     let b = (((h >> 8) % 17) < p) as u8;
-                    if h >> 40 & 127 == 0 {
+                    // one genotype in 128 is half-missing (one in 4096 in cohorts of more than 100 samples)
+                    if h >> 40 & (if n > 100 { 4095 } else { 127 }) == 0 {
                         Gt::diploid(None, Some(b), false)
                     } else {
                         Gt::diploid(Some(a), Some(b), h >> 30 & 1 == 1)
@@ -231,13 +232,19 @@ fn eval_cells(ctx: &Ctx, case: &CellsCase) -> Verdict {
     for (i, (g, w)) in got.values.iter().zip(&want.spectrum.values).enumerate() {
         ensure!(g == w && got.tokens[i].bytes().all(|b| b.is_ascii_digit()), "{what}: flat cell {i} printed {:?}, the model counts {w}", got.tokens[i]);
     }
-    Ok(Pass::new().nontrivial(want.counted >= 50 && want.skipped >= 1).label(format!("cells={}", got.values.len())))
+    let max_alt = (0..got.shape.len()).map(|j| {
+        let stride: usize = got.shape[j + 1..].iter().product();
+        got.values.iter().enumerate().filter(|(_, v)| **v > 0.0).map(|(i, _)| (i / stride) % got.shape[j]).max().unwrap_or(0)
+    }).max().unwrap_or(0);
+    let mut pass = Pass::new().nontrivial(want.counted >= 50 && want.skipped >= 1).label(format!("cells={}", got.values.len()));
+    pass.add_label(if max_alt >= 256 { "a-population-with->=256-ALT-alleles-at-a-record" } else if max_alt >= 128 { "a-population-with-128..255-ALT-alleles-at-a-record" } else { "ALT-counts<128" });
+    Ok(pass)
 }
 
 pub fn check(ctx: &Ctx) -> Check {
     let parts: Vec<Box<dyn Part>> = vec![Box::new(RandomPart {
         name: "create-counts",
-        rule: "generated call sets (1..3 contigs named like identifiers, bare numbers, chrUn_.., accession.version or HLA alleles with `*` and `:`, 1..12 samples with ASCII or non-ASCII names, 0..40 records at increasing or repeated positions, header fileformat VCFv4.1..4.4; phased/unphased, missing, multiallelic, monomorphic, symbolic ALT, up to 11 ALT alleles with two-digit allele indices, REF alleles of up to 9 000 bases (lines longer than the 8 KiB read buffer; rlen > 1 in BCF), extra INFO/FORMAT fields, records without a GT key; non-diploid genotypes only in unselected samples; record classes all-complete / all-missing / one-missing / only-unselected-incomplete forced) x sample->population maps (1..4 populations, any subset, inline or file, or no option at all) x container {vcf, bgzf vcf, bgzf bcf, raw bcf} x log verbosity {default, -v, -vv, -vvv, -q, -qq} x --threads {not given, 1, 2, 4, 7}: exit 0, shape (2n_j+1), every cell equal to the reference model's count and printed as a bare integer; non-trivial = >=1 record counted and (unequal population sizes | strict subset | >=1 skipped record | a counted record whose only incomplete sample is unselected); distinct by (call set, map, container)",
+        rule: "generated call sets (1..3 contigs named like identifiers, bare numbers, chrUn_.., accession.version, HLA alleles with `*` and `:`, or exactly X / Y / MT / chrX / chrM / W / Z and the like, 1..12 samples with ASCII or non-ASCII names, 0..40 records at increasing or repeated positions, header fileformat VCFv4.1..4.4; phased/unphased, missing, multiallelic, monomorphic, symbolic ALT, up to 11 ALT alleles with two-digit allele indices, REF alleles of up to 9 000 bases (lines longer than the 8 KiB read buffer; rlen > 1 in BCF), extra INFO/FORMAT fields, records without a GT key; non-diploid genotypes only in unselected samples; record classes all-complete / all-missing / one-missing / only-unselected-incomplete forced) x sample->population maps (1..4 populations, any subset, inline or file, or no option at all) x container {vcf, bgzf vcf, bgzf bcf, raw bcf} x log verbosity {default, -v, -vv, -vvv, -q, -qq} x --threads {not given, 1, 2, 4, 7}: exit 0, shape (2n_j+1), every cell equal to the reference model's count and printed as a bare integer; non-trivial = >=1 record counted and (unequal population sizes | strict subset | >=1 skipped record | a counted record whose only incomplete sample is unselected); distinct by (call set, map, container)",
         cases: ctx.tier.pick(8000, 300_000),
         strategy: Box::new(|| strategy(GenParams::default()).boxed()),
         eval: Box::new(eval),
@@ -266,6 +273,19 @@ pub fn check(ctx: &Ctx) -> Check {
                 for bcf in [false, true] {
                     v.push(CellsCase { sizes: sizes.to_vec(), unlisted: k % 3, bcf, seed: 0xCE11 + k as u64 });
                 }
+            }
+            v
+        }),
+        eval: Box::new(eval_cells),
+    }));
+    parts.push(Box::new(crate::engine::EnumPart {
+        name: "large-populations",
+        rule: "populations of 100..330 samples (one, or two of unequal size, plus unlisted samples), 160 records whose ALT frequency runs from 1/17 to 16/17: per-population ALT counts and called-sample counts pass 127, 255 and 256 (one-byte tallies), every cell against the model, in VCF and BGZF-BCF",
+        exhaustive: false,
+        cases: Box::new(|_| {
+            let mut v = Vec::new();
+            for (k, sizes) in [vec![200usize], vec![150, 20], vec![160, 140], vec![7, 330], vec![129, 3, 2]].into_iter().enumerate() {
+                v.push(CellsCase { sizes, unlisted: k % 3, bcf: k % 2 == 1, seed: 0xB16 + k as u64 });
             }
             v
         }),
